@@ -313,7 +313,7 @@ func drawSyev(t *rapid.T) kase {
 	c := kase{R: "Dsyev"}
 	c.J[0] = rapid.IntRange(0, 1).Draw(t, "jobz")
 	c.J[1] = rapid.IntRange(0, 1).Draw(t, "uplo")
-	c.N = vk.Dim(t, "n", 0, 40, dimBoundaries...)
+	c.N = dimN(t, "n", 40, dimBoundaries...)
 	if rapid.IntRange(0, 19).Draw(t, "big") == 0 {
 		c.N = rapid.IntRange(41, 120).Draw(t, "nbig")
 	}
@@ -471,7 +471,7 @@ func drawSytrd(t *rapid.T) kase {
 	c := kase{R: "Dsytrd"}
 	c.J[0] = rapid.IntRange(0, 2).Draw(t, "routine") / 2 // 2/3 blocked driver
 	c.J[1] = rapid.IntRange(0, 1).Draw(t, "uplo")
-	c.N = vk.Dim(t, "n", 0, 40, dimBoundaries...)
+	c.N = dimN(t, "n", 40, dimBoundaries...)
 	if rapid.IntRange(0, 7).Draw(t, "big") == 0 {
 		c.N = rapid.IntRange(41, 150).Draw(t, "nbig") // blocked path needs n > nx = 128
 	}
@@ -601,7 +601,7 @@ func checkSteqrInner(c kase) *vk.Failure {
 func drawSteqr(t *rapid.T) kase {
 	c := kase{R: "Dsteqr"}
 	c.J[0] = rapid.IntRange(0, 3).Draw(t, "routine")
-	c.N = vk.Dim(t, "n", 0, 60, dimBoundaries...)
+	c.N = dimN(t, "n", 60, dimBoundaries...)
 	c.Pad = drawPads(t, 1)
 	c.Cls = rapid.IntRange(0, 7).Draw(t, "cls")
 	c.Sc = rapid.SampledFrom([]int{0, 0, 0, 200, -200, 509, -509}).Draw(t, "sc")
